@@ -139,6 +139,15 @@ func (c *FnCtx) oblige(kind, name, guard, goal, src string) *Obl {
 	if c.nameCount == nil {
 		c.nameCount = map[string]int{}
 	}
+	if c.prof != nil {
+		switch kind {
+		case "bounds", "divzero":
+			if c.prof.NoBounds {
+				c.assume(guard, goal)
+				return &Obl{}
+			}
+		}
+	}
 	c.nameCount[name]++
 	if n := c.nameCount[name]; n > 1 {
 		name = fmt.Sprintf("%s~%d", name, n)
